@@ -17,6 +17,9 @@ import (
 	"math"
 	"math/rand"
 	"os"
+	"sort"
+	"sync"
+	"sync/atomic"
 	"time"
 
 	"github.com/pion/interceptor"
@@ -608,6 +611,401 @@ func runIcp(ic icpCase) []recCase {
 	return res
 }
 
+
+// ---- life-cycle set (c19life): Bind / Unbind / Close interleaved with traffic ----
+
+// lev is one interceptor-level event. The k-th "bind" (k = 0, 1, ...) returns handle k; a recorder is
+// named by the number of the bind that created it (Model/StatsLifecycle.v).
+type lev struct {
+	Kind  string `json:"kind"` // bind start unbind close rtp rtcp
+	SSRC  uint32 `json:"ssrc,omitempty"`
+	Rate  uint32 `json:"rate,omitempty"`
+	Local bool   `json:"local,omitempty"`
+	Rid   int    `json:"rid,omitempty"` // start: the recorder whose Start goroutine is released
+	H     int    `json:"h,omitempty"`   // rtp: the handle (bind number) whose writer / reader carries the packet
+	Ev    *ev    `json:"ev,omitempty"`
+}
+
+type lifeCase struct {
+	Q   []uint32 `json:"q"` // SSRCs read with Get after every event
+	Evs []lev    `json:"evs"`
+	Obs [][]*obs `json:"obs"` // per event, per queried SSRC; nil = Get returned nil
+}
+
+// gatedRec is the package's own recorder behind the public RecorderFactory option; its Start (called by
+// the goroutine the interceptor spawns) waits until the harness releases it, so the "not yet running"
+// window has a chosen length.
+type gatedRec struct {
+	stats.Recorder
+	gate    chan struct{}
+	started chan struct{}
+	stops   *int64
+}
+
+func (g *gatedRec) Start() {
+	<-g.gate
+	g.Recorder.Start()
+	close(g.started)
+}
+
+func (g *gatedRec) Stop() {
+	g.Recorder.Stop()
+	atomic.AddInt64(g.stops, 1)
+}
+
+func runLife(lc lifeCase) lifeCase {
+	now := int64(0)
+	var stops int64
+	var created []*gatedRec
+	f, err := stats.NewInterceptor(
+		stats.SetNowFunc(func() time.Time { return time.Unix(0, now) }),
+		stats.SetRecorderFactory(func(ssrc uint32, rate float64) stats.Recorder {
+			g := &gatedRec{
+				Recorder: stats.NewRecorderVerif(ssrc, rate), gate: make(chan struct{}), started: make(chan struct{}), stops: &stops,
+			}
+			created = append(created, g)
+
+			return g
+		}))
+	if err != nil {
+		panic(err)
+	}
+	var getter stats.Getter
+	f.OnNewPeerConnection(func(_ string, g stats.Getter) { getter = g })
+	ii, err := f.NewInterceptor("c19life")
+	if err != nil {
+		panic(err)
+	}
+	icp, ok := ii.(*stats.Interceptor)
+	if !ok {
+		panic("not a stats interceptor")
+	}
+	var curRTP, curRTCP []byte
+	rtcpW := icp.BindRTCPWriter(interceptor.RTCPWriterFunc(
+		func(p []rtcp.Packet, _ interceptor.Attributes) (int, error) { return len(p), nil }))
+	rtcpR := icp.BindRTCPReader(interceptor.RTCPReaderFunc(
+		func(b []byte, a interceptor.Attributes) (int, interceptor.Attributes, error) {
+			return copy(b, curRTCP), a, nil
+		}))
+	type handle struct {
+		w interceptor.RTPWriter
+		r interceptor.RTPReader
+	}
+	var handles []handle
+	byRid := map[int]*gatedRec{}
+	cur := map[uint32]int{}   // what the harness expects the recorder map to hold (scheduling only)
+	pending := map[int]bool{} // Start goroutine spawned, gate not released yet
+	var closers sync.WaitGroup
+	buf := make([]byte, 4000)
+	out := lifeCase{Q: lc.Q, Evs: lc.Evs}
+	closed := false
+	for _, e := range lc.Evs {
+		switch e.Kind {
+		case "bind":
+			k := len(handles)
+			before := len(created)
+			info := &interceptor.StreamInfo{SSRC: e.SSRC, ClockRate: e.Rate}
+			if e.Local {
+				handles = append(handles, handle{w: icp.BindLocalStream(info, interceptor.RTPWriterFunc(
+					func(_ *rtp.Header, p []byte, _ interceptor.Attributes) (int, error) { return len(p), nil }))})
+			} else {
+				handles = append(handles, handle{r: icp.BindRemoteStream(info, interceptor.RTPReaderFunc(
+					func(b []byte, a interceptor.Attributes) (int, interceptor.Attributes, error) {
+						return copy(b, curRTP), a, nil
+					}))})
+			}
+			if len(created) > before {
+				byRid[k] = created[len(created)-1]
+				if !closed {
+					cur[e.SSRC] = k
+					pending[k] = true
+				}
+			}
+		case "start":
+			if pending[e.Rid] {
+				close(byRid[e.Rid].gate)
+				<-byRid[e.Rid].started
+				delete(pending, e.Rid)
+			}
+		case "unbind":
+			info := &interceptor.StreamInfo{SSRC: e.SSRC}
+			if e.Local {
+				icp.UnbindLocalStream(info)
+			} else {
+				icp.UnbindRemoteStream(info)
+			}
+			delete(cur, e.SSRC)
+		case "close":
+			if len(pending) == 0 {
+				if err := icp.Close(); err != nil {
+					panic(err)
+				}
+			} else {
+				// Close blocks in wg.Wait until every spawned Start goroutine has run; its locked part
+				// (closed = true, Stop on every recorder of the map) is over once all those Stops were seen
+				if len(cur) == 0 {
+					panic("generator: Close with pending Start goroutines and an empty recorder map cannot be sequenced")
+				}
+				want := atomic.LoadInt64(&stops) + int64(len(cur))
+				closers.Add(1)
+				go func() {
+					defer closers.Done()
+					if err := icp.Close(); err != nil {
+						panic(err)
+					}
+				}()
+				for t0 := time.Now(); atomic.LoadInt64(&stops) < want; {
+					if time.Since(t0) > 10*time.Second {
+						panic("Close did not stop the recorders of the map")
+					}
+					time.Sleep(20 * time.Microsecond)
+				}
+			}
+			closed = true
+		case "rtp":
+			now = e.Ev.TS
+			if e.H < 0 || e.H >= len(handles) {
+				break
+			}
+			if h := handles[e.H]; h.w != nil {
+				hd := mkHeader(*e.Ev)
+				if _, err := h.w.Write(&hd, make([]byte, e.Ev.Pay), interceptor.Attributes{}); err != nil {
+					panic(err)
+				}
+			} else {
+				curRTP = marshalRTP(*e.Ev)
+				if _, _, err := h.r.Read(buf, interceptor.Attributes{}); err != nil {
+					panic(err)
+				}
+			}
+		default:
+			now = e.Ev.TS
+			if e.Ev.Kind == "inrtcp" {
+				curRTCP = marshalRTCP(e.Ev.Pkts)
+				if _, _, err := rtcpR.Read(buf, interceptor.Attributes{}); err != nil {
+					panic(err)
+				}
+			} else if _, err := rtcpW.Write(mkPkts(e.Ev.Pkts), interceptor.Attributes{}); err != nil {
+				panic(err)
+			}
+		}
+		row := make([]*obs, len(lc.Q))
+		for i, q := range lc.Q {
+			if st := getter.Get(q); st != nil {
+				o := project(*st)
+				row[i] = &o
+			}
+		}
+		out.Obs = append(out.Obs, row)
+	}
+	for rid := range pending {
+		close(byRid[rid].gate)
+	}
+	closers.Wait()
+	if err := icp.Close(); err != nil {
+		panic(err)
+	}
+
+	return out
+}
+
+func cqLev(e lev) string {
+	switch e.Kind {
+	case "bind":
+		return cq.C("LBind", u(e.SSRC), u(e.Rate))
+	case "start":
+		return cq.C("LStart", cq.Z(int64(e.Rid)))
+	case "unbind":
+		return cq.C("LUnbind", u(e.SSRC))
+	case "close":
+		return "LClose"
+	case "rtp":
+		return cq.C("LRtp", cq.Z(int64(e.H)), cqEv(*e.Ev))
+	}
+
+	return cq.C("LRtcp", cqEv(*e.Ev))
+}
+
+func (c lifeCase) toCase(buckets []string) cq.Case {
+	es := make([]string, len(c.Evs))
+	traffic := 0
+	for i, e := range c.Evs {
+		es[i] = cqLev(e)
+		if e.Ev != nil {
+			traffic++
+		}
+	}
+	zero := obs{Jit: fnum{Class: "zero"}, RJit: fnum{Class: "zero"}, RFrac: fnum{Class: "zero"}}
+	prev := make([]*obs, len(c.Q))
+	rows := make([]string, len(c.Obs))
+	for i, row := range c.Obs {
+		cells := make([]string, len(row))
+		for j, o := range row {
+			if o == nil {
+				cells[j] = cq.None
+			} else {
+				base := zero
+				if prev[j] != nil {
+					base = *prev[j]
+				}
+				cells[j] = cq.Some(cqDiff(base, *o))
+			}
+			prev[j] = o
+		}
+		rows[i] = cq.L(cells)
+	}
+
+	return cq.Case{Coq: cq.T(lu(c.Q), cq.L(es), cq.L(rows)), JSON: c, Buckets: buckets, Trivial: traffic < 2}
+}
+
+func sortedInts(m map[int]uint32) []int {
+	ks := make([]int, 0, len(m))
+	for k := range m {
+		ks = append(ks, k)
+	}
+	sort.Ints(ks)
+
+	return ks
+}
+
+// genLife plans one interceptor history; the planning state mirrors what the interceptor is expected to
+// do only to name the buckets and to keep Close sequenceable (see runLife).
+func genLife(r *rand.Rand) (lifeCase, []string) {
+	g := newGen(r)
+	b := g.buckets
+	univ := []uint32{g.s, g.others[0], g.others[1]}
+	lc := lifeCase{Q: append([]uint32{}, univ...)}
+	if nv := g.others[3]; nv != univ[0] && nv != univ[1] && nv != univ[2] {
+		lc.Q = append(lc.Q, nv) // never bound
+	}
+	type hnd struct {
+		ssrc  uint32
+		local bool
+		rid   int
+	}
+	var hs []hnd
+	cur := map[uint32]int{}
+	curLocal := map[uint32]bool{}
+	lastRate := map[uint32]uint32{}
+	ever := map[uint32]bool{}
+	pending := map[int]uint32{}
+	closed := false
+	startEv := func(rid int) {
+		s := pending[rid]
+		if c, ok := cur[s]; !ok || c != rid {
+			b["start-after-unbind"] = true
+		} else if closed {
+			b["start-after-close"] = true
+		}
+		delete(pending, rid)
+		lc.Evs = append(lc.Evs, lev{Kind: "start", Rid: rid})
+	}
+	mappedPending := func() bool {
+		for rid, s := range pending {
+			if c, ok := cur[s]; ok && c == rid {
+				return true
+			}
+		}
+
+		return false
+	}
+	n := 8 + r.Intn(32)
+	for len(lc.Evs) < n {
+		k := r.Intn(22)
+		switch {
+		case k < 3 || len(hs) == 0: // bind
+			s := univ[r.Intn(len(univ))]
+			e := lev{Kind: "bind", SSRC: s, Rate: rates[r.Intn(len(rates))], Local: r.Intn(2) == 0}
+			rid, has := cur[s]
+			switch {
+			case has:
+				b["bind-shares-recorder"] = true
+				if curLocal[s] != e.Local {
+					b["bound-both-ways"] = true
+				}
+			case closed:
+				b["bind-after-close"] = true
+				rid = len(hs)
+			default:
+				if ever[s] {
+					b["rebind"] = true
+					if lastRate[s] != e.Rate {
+						b["rebind-new-rate"] = true
+					}
+				}
+				rid = len(hs)
+				cur[s], curLocal[s], lastRate[s], ever[s] = rid, e.Local, e.Rate, true
+				pending[rid] = s
+			}
+			hs = append(hs, hnd{ssrc: s, local: e.Local, rid: rid})
+			lc.Evs = append(lc.Evs, e)
+			if !has && !closed && r.Intn(3) > 0 { // most recorders start right away
+				startEv(rid)
+			}
+		case k < 6: // a Start goroutine runs
+			if ks := sortedInts(pending); len(ks) > 0 {
+				startEv(ks[r.Intn(len(ks))])
+			}
+		case k == 6: // unbind
+			s := univ[r.Intn(len(univ))]
+			if rid, ok := cur[s]; !ok {
+				b["unbind-unbound"] = true
+			} else if _, p := pending[rid]; p {
+				b["unbind-pending"] = true
+			}
+			delete(cur, s)
+			lc.Evs = append(lc.Evs, lev{Kind: "unbind", SSRC: s, Local: r.Intn(2) == 0})
+		case k == 7:
+			if r.Intn(3) > 0 {
+				break
+			}
+			if len(cur) == 0 { // Close could not be sequenced against pending starts: let them run first
+				for _, rid := range sortedInts(pending) {
+					startEv(rid)
+				}
+			}
+			if len(pending) > 0 {
+				b["close-with-pending-start"] = true
+			}
+			if closed {
+				b["double-close"] = true
+			}
+			closed = true
+			lc.Evs = append(lc.Evs, lev{Kind: "close"})
+		case k < 15: // RTP through some handle, also a stale one
+			h := r.Intn(len(hs))
+			kind := "inrtp"
+			if hs[h].local {
+				kind = "outrtp"
+			}
+			e := g.rtpEv(kind)
+			if r.Intn(4) > 0 {
+				e.SSRC = hs[h].ssrc
+			}
+			if c, ok := cur[hs[h].ssrc]; !ok || c != hs[h].rid {
+				b["stale-handle-rtp"] = true
+			} else if _, p := pending[c]; p {
+				b["not-running-drop"] = true
+			}
+			if closed {
+				b["traffic-after-close"] = true
+			}
+			lc.Evs = append(lc.Evs, lev{Kind: "rtp", H: h, Ev: &e})
+		default:
+			e := g.rtcpEv(r.Intn(2) == 0)
+			if mappedPending() {
+				b["not-running-drop"] = true
+			}
+			if closed {
+				b["traffic-after-close"] = true
+			}
+			lc.Evs = append(lc.Evs, lev{Kind: "rtcp", Ev: &e})
+		}
+	}
+
+	return lc, g.bucketList(fmt.Sprintf("streams%d", len(ever)))
+}
+
 var leak []cq.ImplFailure
 
 func mustSame(a, b obs) obs {
@@ -639,6 +1037,8 @@ type gen struct {
 	rtpts   uint32
 	sentSR  []uint64
 	sentRR  []uint64 // RRTR
+	srForS  []uint64 // NTP times of the sender reports sent that are addressed to s (what the recorder keeps 5 of)
+	seqs    map[string][]int64
 	buckets map[string]bool
 }
 
@@ -681,7 +1081,22 @@ func (g *gen) rtpEv(kind string) ev {
 			e.Pad = 1 + g.r.Intn(20)
 		}
 	}
-	switch g.r.Intn(14) {
+	tmp := int64(-1) // a sequence number used for this packet only (the stream position does not move)
+	switch g.r.Intn(16) {
+	case 14: // late: far behind the stream position
+		if len(g.seqs[kind]) > 0 {
+			g.buckets["late"] = true
+			tmp = *seq - int64(5+g.r.Intn(300))
+		} else {
+			*seq++
+		}
+	case 15: // duplicate of an old packet
+		if old := g.seqs[kind]; len(old) > 2 {
+			g.buckets["dup-old"] = true
+			tmp = old[g.r.Intn(len(old)-1)]
+		} else {
+			*seq++
+		}
 	case 0:
 		g.buckets["dup"] = true
 	case 1:
@@ -707,6 +1122,11 @@ func (g *gen) rtpEv(kind string) ev {
 		g.buckets["wrap"] = true
 	}
 	e.Seq = uint16(*seq & 0xFFFF) //nolint:gosec
+	if tmp != -1 {
+		e.Seq = uint16((tmp + 65536*4) & 0xFFFF) //nolint:gosec
+	} else {
+		g.seqs[kind] = append(g.seqs[kind], *seq)
+	}
 	g.rtpts += uint32(g.r.Intn(6000))
 	if g.r.Intn(30) == 0 {
 		g.rtpts += 0x80000000
@@ -733,6 +1153,9 @@ func (g *gen) report(about uint32, lsrFrom []uint64) rep {
 	case len(lsrFrom) > 0 && g.r.Intn(5) > 0:
 		k := len(lsrFrom) - 1 - g.r.Intn(min(len(lsrFrom), 7))
 		r.LSR = uint32(lsrFrom[k] >> 16) //nolint:gosec
+		if about == g.s {
+			g.ageBucket("lsr", lsrFrom[k], g.srForS)
+		}
 		r.Delay = uint32(g.r.Intn(3 * 65536)) //nolint:gosec
 		if g.r.Intn(12) == 0 {
 			r.Delay = 0
@@ -745,9 +1168,33 @@ func (g *gen) report(about uint32, lsrFrom []uint64) rep {
 	return r
 }
 
+// ageBucket names how old the referenced report is among those the recorder keeps (the last five)
+func (g *gen) ageBucket(what string, ntp uint64, kept []uint64) {
+	for i := len(kept) - 1; i >= 0; i-- {
+		if kept[i]>>16 == ntp>>16 {
+			switch age := len(kept) - 1 - i; {
+			case age >= 5:
+				g.buckets[what+"-older-than-5"] = true
+			case age == 4:
+				g.buckets[what+"-fifth"] = true
+			}
+
+			return
+		}
+	}
+}
+
 func (g *gen) reports(lsrFrom []uint64) []rep {
 	n := g.r.Intn(4)
 	out := []rep{}
+	if g.r.Intn(5) == 0 { // 2+ blocks, the one about s not first
+		n = 1 + g.r.Intn(3)
+		for i := 0; i < n; i++ {
+			out = append(out, g.report(g.others[g.r.Intn(len(g.others))], lsrFrom))
+		}
+
+		return append(out, g.report(g.s, lsrFrom))
+	}
 	for i := 0; i < n; i++ {
 		out = append(out, g.report(g.anySSRC(), lsrFrom))
 	}
@@ -823,6 +1270,9 @@ func (g *gen) rtcpPkt(incoming bool) pkt {
 						k := len(g.sentRR) - 1 - g.r.Intn(min(len(g.sentRR), 7))
 						d.LastRR = uint32(g.sentRR[k] >> 16) //nolint:gosec
 						g.buckets["dlrr-candidate"] = true
+						if d.SSRC == g.s {
+							g.ageBucket("dlrr", g.sentRR[k], g.sentRR)
+						}
 					}
 					if g.r.Intn(12) == 0 {
 						d.DLRR = 0
@@ -880,10 +1330,28 @@ func (g *gen) rtcpEv(incoming bool) ev {
 		}
 		e.Pkts = append(e.Pkts, p)
 	}
+	if incoming {
+		for _, p := range e.Pkts {
+			if (p.Kind == "sr" || p.Kind == "rr") && len(p.Reps) >= 2 && p.Reps[0].SSRC != g.s {
+				for _, rp := range p.Reps[1:] {
+					if rp.SSRC == g.s {
+						g.buckets["report-block-not-first"] = true
+					}
+				}
+			}
+		}
+	}
 	if !incoming {
 		for _, p := range e.Pkts {
 			if p.Kind == "sr" {
 				g.sentSR = append(g.sentSR, p.NTP)
+				forS := p.Sender == g.s
+				for _, rp := range p.Reps {
+					forS = forS || rp.SSRC == g.s
+				}
+				if forS {
+					g.srForS = append(g.srForS, p.NTP)
+				}
 			}
 			for _, b := range p.Blocks {
 				if b.Kind == "rrtr" {
@@ -899,7 +1367,7 @@ func (g *gen) rtcpEv(incoming bool) ev {
 var rates = []uint32{90000, 90000, 48000, 8000, 1, 1000000, 4294967295}
 
 func newGen(r *rand.Rand) *gen {
-	g := &gen{r: r, buckets: map[string]bool{}}
+	g := &gen{r: r, buckets: map[string]bool{}, seqs: map[string][]int64{}}
 	g.s = []uint32{1, 5000, 0x80000000, 0xFFFFFFFF, r.Uint32()}[r.Intn(5)]
 	g.others = []uint32{g.s + 1, g.s - 1, 0, r.Uint32()}
 	g.now = 1600000000000000000 + r.Int63n(100000000000000000)
@@ -912,6 +1380,50 @@ func newGen(r *rand.Rand) *gen {
 	g.rtpts = r.Uint32()
 
 	return g
+}
+
+// burst: more than five sender reports and receiver reference times are sent for s, then reports arrive
+// that refer to each of them (in random order of age), also to the ones the recorder no longer keeps
+func (g *gen) burst() []ev {
+	var evs []ev
+	n := 6 + g.r.Intn(4)
+	for i := 0; i < n; i++ {
+		g.now += int64(1+g.r.Intn(3)) * 1000000000
+		sr := pkt{Kind: "sr", Sender: g.s, NTP: g.ntpNow(), RTPTs: g.r.Uint32(), PC: g.r.Uint32(), OC: g.r.Uint32()}
+		xr := pkt{Kind: "xr", Sender: g.others[0], Blocks: []xblock{{Kind: "rrtr", NTP: g.ntpNow() + uint64(g.r.Intn(1000))<<16}}}
+		e := ev{Kind: "outrtcp", TS: g.now, Pkts: []pkt{sr, xr}}
+		if g.r.Intn(2) == 0 {
+			e.Pkts = []pkt{xr, sr}
+		}
+		g.sentSR, g.srForS, g.sentRR = append(g.sentSR, sr.NTP), append(g.srForS, sr.NTP), append(g.sentRR, xr.Blocks[0].NTP)
+		evs = append(evs, e)
+		if g.r.Intn(3) == 0 {
+			evs = append(evs, g.rtpEv("outrtp"))
+		}
+	}
+	for _, age := range g.r.Perm(n) {
+		rp := g.report(g.s, nil)
+		ntp := g.srForS[len(g.srForS)-1-age]
+		rp.LSR, rp.Delay = uint32(ntp>>16), uint32(1+g.r.Intn(2*65536)) //nolint:gosec
+		g.ageBucket("lsr", ntp, g.srForS)
+		rr := pkt{Kind: "rr", Sender: g.others[1], Reps: []rep{rp}}
+		if g.r.Intn(2) == 0 {
+			rr.Reps = []rep{g.report(g.others[0], nil), rp}
+			g.buckets["report-block-not-first"] = true
+		}
+		rt := g.sentRR[len(g.sentRR)-1-age]
+		g.ageBucket("dlrr", rt, g.sentRR)
+		xr := pkt{Kind: "xr", Sender: g.others[1], Blocks: []xblock{{Kind: "dlrr", Dlrr: []dl{
+			{SSRC: g.others[0], LastRR: uint32(rt >> 16), DLRR: 7},                              //nolint:gosec
+			{SSRC: g.s, LastRR: uint32(rt >> 16), DLRR: uint32(1 + g.r.Intn(2*65536))}}}}} //nolint:gosec
+		e := ev{Kind: "inrtcp", TS: g.tick(), Pkts: []pkt{rr, xr}}
+		if g.r.Intn(2) == 0 {
+			e.Pkts = []pkt{xr, rr}
+		}
+		evs = append(evs, e)
+	}
+
+	return evs
 }
 
 func (g *gen) history(n int, mode int) []ev {
@@ -972,13 +1484,29 @@ func main() {
 	checks := []string{"rec_mismatches", "rec_spec_failures"}
 	recSet := &cq.Set{Name: "c19rec", Import: "IV.Check.C19Check", CaseType: caseType, Checks: checks}
 	icpSet := &cq.Set{Name: "c19icp", Import: "IV.Check.C19Check", CaseType: caseType, Checks: checks}
+	lifeSet := &cq.Set{
+		Name: "c19life", Import: "IV.Check.C19bCheck", CaseType: "list Z * list levent * list (list (option (list fupd)))",
+		Checks: []string{"life_mismatches", "life_spec_failures"},
+	}
 	rule := "c19rec: one recorder, random interleavings of in/out RTP (wrap, dup, reorder, loss, foreign SSRC) and in/out RTCP compounds " +
 		"(SR/RR/XR(DLRR,RRTR,other)/NACK/PLI/FIR/SDES/BYE/REMB to matching and foreign SSRCs), stats read after every event; " +
-		"c19icp: public interceptor with 1-4 bound streams, every bound SSRC read after every event; non-trivial = at least 2 events"
+		"c19icp: public interceptor with 1-4 bound streams, every bound SSRC read after every event; non-trivial = at least 2 events; " +
+		"c19life: public interceptor with the package's recorder behind a gated RecorderFactory: Bind/Unbind/rebind/Close and the Start goroutine " +
+		"of every recorder interleaved with RTP (also through stale handles) and RTCP, Get of 3 streams and a never-bound SSRC after every event; " +
+		"non-trivial = at least 2 traffic events"
 
 	if o.Replay != "" {
 		var raw map[string]interface{}
 		set := cq.LoadReplay(o.Replay, &raw)
+		if set == "c19life" {
+			var lc lifeCase
+			cq.LoadReplay(o.Replay, &lc)
+			lc.Obs = nil
+			lifeSet.Cases = append(lifeSet.Cases, runLife(lc).toCase([]string{"replay"}))
+			cq.Write(o, "replay", []*cq.Set{lifeSet}, nil, nil)
+
+			return
+		}
 		var c recCase
 		cq.LoadReplay(o.Replay, &c)
 		rc := runRec(c.SSRC, c.Rate, c.Evs)
@@ -1001,10 +1529,17 @@ func main() {
 	// regression corpus first
 	for _, f := range o.CorpusFiles() {
 		var c recCase
-		cq.LoadReplay(f, &c)
+		if cq.LoadReplay(f, &c) == "c19life" {
+			var lc lifeCase
+			cq.LoadReplay(f, &lc)
+			lc.Obs = nil
+			lifeSet.Cases = append(lifeSet.Cases, runLife(lc).toCase([]string{"corpus"}))
+
+			continue
+		}
 		recSet.Cases = append(recSet.Cases, runRec(c.SSRC, c.Rate, c.Evs).toCase([]string{"corpus"}))
 	}
-	nrec := o.Scale(1400, 12000)
+	nrec := o.Scale(1200, 12000)
 	for i := 0; i < nrec; i++ {
 		g := newGen(r)
 		rate := rates[r.Intn(len(rates))]
@@ -1012,8 +1547,13 @@ func main() {
 			rate = 0
 			g.buckets["rate0"] = true
 		}
-		mode := r.Intn(4)
-		evs := g.history(3+r.Intn(28), mode)
+		mode := r.Intn(5)
+		var evs []ev
+		if mode == 4 {
+			evs = append(g.burst(), g.history(r.Intn(6), r.Intn(4))...)
+		} else {
+			evs = g.history(3+r.Intn(28), mode)
+		}
 		recSet.Cases = append(recSet.Cases, runRec(g.s, rate, evs).toCase(g.bucketList(fmt.Sprintf("mode%d", mode))))
 	}
 	nicp := o.Scale(150, 1200)
@@ -1043,10 +1583,16 @@ func main() {
 			icpSet.Cases = append(icpSet.Cases, c.toCase(g.bucketList(fmt.Sprintf("streams%d", len(ic.Streams)))))
 		}
 	}
+	nlife := o.Scale(120, 1000)
+	for i := 0; i < nlife; i++ {
+		lc, buckets := genLife(r)
+		lifeSet.Cases = append(lifeSet.Cases, runLife(lc).toCase(buckets))
+	}
 	if len(leak) > 3 {
 		leak = leak[:3]
 	}
-	cq.Write(o, rule, []*cq.Set{recSet, icpSet}, map[string]interface{}{"interceptor_histories": nicp}, leak)
+	cq.Write(o, rule, []*cq.Set{recSet, icpSet, lifeSet},
+		map[string]interface{}{"interceptor_histories": nicp, "lifecycle_histories": nlife}, leak)
 	if len(recSet.Cases) == 0 {
 		fmt.Fprintln(os.Stderr, "no cases")
 		os.Exit(1)
